@@ -125,6 +125,7 @@ type c06Scenario struct {
 	faultAt  int    // fault at the k-th page read of the call (0: none)
 	others   string // "", "W", "H2", "H3", "H2+W"
 	h2Select bool
+	grown    bool // the file grows (a committed bulk insert by another process) after the handle was opened, before the call
 }
 
 func (s *c06Scenario) String() string {
@@ -140,6 +141,9 @@ func (s *c06Scenario) String() string {
 	}
 	if s.others != "" {
 		x += " with " + s.others
+	}
+	if s.grown {
+		x += " on a file grown after Open"
 	}
 	return x
 }
@@ -277,6 +281,12 @@ func c06Run(r *ev.Run, c *mc.Ctx, wk *c06Worker, sc *c06Scenario, img []byte) c0
 	}
 	env := &Env{H: sqlittle.VerifWrap(d), D: d}
 	defer real.Close()
+	if sc.grown {
+		// another process commits a transaction that makes the file (and table t) much larger than at Open
+		wk.H3.MustOK("open " + path)
+		wk.H3.MustOK("exec WITH RECURSIVE n(i) AS (SELECT 100 UNION ALL SELECT i+1 FROM n WHERE i<130) INSERT INTO t SELECT i, 'g', 'growgrowgrowgrowgrowgrowgrowgrowgrowgrowgrowgrowgrowgrowgrowgrowgrowgrowgrowgrowgrowgrowgrowgrowgrowgrowgrow'||i FROM n")
+		wk.H3.MustOK("close")
+	}
 
 	art := func() map[string]interface{} {
 		return map[string]interface{}{"scenario": sc.String(), "schedule": append([]string{}, res.sched...), "choices": c.Taken()}
@@ -367,6 +377,9 @@ func c06Run(r *ev.Run, c *mc.Ctx, wk *c06Worker, sc *c06Scenario, img []byte) c0
 
 	// invariants on the kernel's lock table
 	check := func(after string) {
+		if taint != "" {
+			return // the lock was already lost to a same-process handle (known finding); everything later is a consequence
+		}
 		locks, err := FileLocks(path)
 		if err != nil {
 			r.Harness("proc locks: %v", err)
@@ -581,6 +594,12 @@ func runC06(r *ev.Run) {
 				}
 			}
 			scen = append(scen, c06Scenario{op: op, others: "H2", h2Select: true})
+		}
+		if op.name == "Select" || op.name == "IndexedSelect" || op.name == "SelectRowid" {
+			scen = append(scen, c06Scenario{op: op, grown: true})
+		}
+		if op.name == "SelectRowid" {
+			scen = append(scen, c06Scenario{op: op, others: "W", grown: true})
 		}
 		if op.name == tripleOp {
 			scen = append(scen, c06Scenario{op: op, others: "H2+W"}, c06Scenario{op: op, others: "H3+W"})
